@@ -18,6 +18,7 @@
 import json, os, random, shutil, struct, time, threading, concurrent.futures as cf
 import vbuild, vtlc, engine, checklib, replcluster as rc, gen_repl
 from vbuild import VERIF, InfraError
+from checks import ringpart
 
 PROPS = ["C09"]
 MANIFEST = {"C09": dict(level="fault_enumeration", design="5/C09", engine="P",
@@ -296,6 +297,7 @@ def run(prop, tier, seed):
         # (3) real cluster
         binp = rc.build_server(wd)
         hbin = vbuild.build_inpkg("server", wd)
+        ring = ringpart.run_part(out, tier, seed, os.path.join(wd, "ring"), binp=hbin)     # data-structure half: the ring buffer itself
         obs_by = {}
         par = max(3, min(12, ncpu))
         with cf.ThreadPoolExecutor(max_workers=par) as ex:
@@ -445,7 +447,7 @@ def run(prop, tier, seed):
                       "invariants": ["TypeOK", "AppendedExact", "AppliedExact", "ImageSound", "Convergence", "ResumeOnlyFromRing"]},
             "tlc_behaviours_generated": len(behs), "tlc_behaviours_replayed": len(chosen), "directed_scenarios": len([s for s in scs if s["src"] == "directed"]),
             "seeded_scenarios": len([s for s in scs if s["src"] == "seeded"]),
-            "faults": cov,
+            "faults": cov, "ring_refinement": ring,
             "monitor": {"module": "spec/mon/MonRepl.tla", "events": mst["events"], "monitor_states": mst["monitor_states"]},
             "selftest": stests, "reported_codes_by_scenario": codes_by,
             "inconclusive_scenarios": inconclusive, "reference_from_leader_file": sorted(n for n, o in obs_by.items() if o.get("reference") == "leader-file"), "tap_reconnects": sum(o.get("tap_reconnects", 0) for o in obs_by.values()),
